@@ -317,6 +317,57 @@ impl World {
             }
             layers.push(t);
         }
+        // collisions: ordinary directories / files named exactly like this game's language marker,
+        // and paths that differ from existing ones only in letter case
+        if rng.chance(1, 5) {
+            let add = |t: &mut Tree, p: String, body: Vec<u8>| {
+                let comps: Vec<&str> = p.split('/').collect();
+                if !(1..comps.len()).any(|i| matches!(t.get(&comps[..i].join("/")), Some(Node::File(_)))) && !t.contains_key(&p) {
+                    add_parents(t, &p);
+                    t.insert(p, Node::File(body));
+                }
+            };
+            match loc::marker(l, lang) {
+                loc::Marker::Dir(d) => {
+                    c.sit("directory_named_like_the_language_directory");
+                    for t in layers.iter_mut() {
+                        if rng.bool() {
+                            add(t, format!("{}/outer.txt", d), b"outer".to_vec());
+                            add(t, format!("{}/{}/inner.txt", d, d), b"inner".to_vec());
+                            add(t, format!("m/{}/plain.txt", d), b"plain".to_vec());
+                        }
+                    }
+                }
+                loc::Marker::Prefix(x) => {
+                    c.sit("name_starting_with_the_language_prefix");
+                    for t in layers.iter_mut() {
+                        if rng.bool() {
+                            add(t, format!("m/{}one.txt", x), b"prefixed".to_vec());
+                            add(t, format!("m/{}{}one.txt", x, x), b"twice".to_vec());
+                            add(t, format!("{}/file.txt", x), b"dir named like the prefix".to_vec());
+                        }
+                    }
+                }
+                _ => {}
+            }
+            // case variants of existing paths, in another layer than the original
+            let existing: Vec<String> = layers.iter().flat_map(|t| t.iter().filter(|(_, n)| matches!(n, Node::File(_))).map(|(p, _)| p.clone())).collect();
+            if !existing.is_empty() && layers.len() >= 2 {
+                c.sit("paths_differing_only_in_letter_case");
+                for _ in 0..rng.range(1, 3) {
+                    let p = rng.pick(&existing).clone();
+                    let flipped: String = p.chars().map(|ch| if ch.is_ascii_lowercase() { ch.to_ascii_uppercase() } else { ch.to_ascii_lowercase() }).collect();
+                    let parts: Vec<&str> = p.rsplitn(2, '/').collect();
+                    let fparts: Vec<&str> = flipped.rsplitn(2, '/').collect();
+                    // flip only the final component (so that the directories stay shared)
+                    let variant = if parts.len() == 2 { format!("{}/{}", parts[1], fparts[0]) } else { fparts[0].to_string() };
+                    if variant != p {
+                        let li = rng.below(layers.len());
+                        add(&mut layers[li], variant, b"case variant".to_vec());
+                    }
+                }
+            }
+        }
         // thresholds: a directory with more than 64 entries some of which exist in several layers,
         // and a chain of more than 32 nested directories
         if rng.chance(1, 30) {
